@@ -47,15 +47,42 @@ def numbering(ctx, sc, entry):
                     return
 
 
+def no_delay_without_a_value(ctx, sc, entry):
+    """A strategy call that RAISES has produced no delay: no retry may be granted (no `retry` event, no sleep) for that failure unless the
+    strategy is asked again and answers (execute() asks again when it books the error as a further failure of the attempt - KF4/KF6 of
+    C12 - and that second answer is a value)."""
+    recs, h, w = rig.run(sc, entry)
+    ctx.inc("runs")
+    ctx.inc("calls", len(recs))
+    for rec in recs:
+        tr = rec.trace
+        for i, ev in enumerate(tr):
+            if ev[0] == "fault" and ev[1] == "strategy":
+                ctx.inc("strategy_calls_that_raised")
+                for z in tr[i + 1:]:
+                    if z[0] in ("strategy", "op"):
+                        break  # asked again / next attempt began some other way: judged by the data-flow oracle
+                    if (z[0] == "metric" and z[1] == "retry") or z[0] in ("sleep", "dsleep", "handler", "before_sleep"):
+                        ctx.viol("delay-without-a-strategy-value", f"[{entry} call#{rec.idx}] the strategy raised {ev[2]} when asked for the delay, yet the run went on with {z[:4]}", common.payload(sc, entry, rec.idx))
+                        return
+                break
+
+
 def work(ctx, tier):
     stats = {}
     rng = common.rng_for(ctx, "main")
+    for k in range((400 if tier == "quick" else 8000) // ctx.nshards):
+        sc = gen.rand_scenario(rng, max_attempts=(3, 6), p_special=0.0, p_budget=0.2, p_handler=0.3, p_abort=0.0, ncalls=(1, 2), placements=False)
+        sc["fault"] = {"kind": "cb", "cb": "strategy", "at": rng.choice([0, 0, 1, 2]), "exc": rng.choice(gen.CB_EXCS)}
+        for e in common.pick_entries(rng, rig.ENTRIES, 3):
+            no_delay_without_a_value(ctx, sc, e)
+        ctx.inc("raising_strategy_scenarios")
     # attempt numbering, also when an attempt hook fails in one particular attempt and execute() contains the error as a failed attempt
     for k in range((600 if tier == "quick" else 12000) // ctx.nshards):
         sc = gen.rand_scenario(rng, max_attempts=(3, 6), p_special=0.0, p_budget=0.2, p_handler=0.2, p_abort=0.0, ncalls=(1, 2), placements=False)
         sc["place"]["hooks"] = rng.choice(["call", "policy", "both"])
         if k % 3:
-            sc["fault"] = {"kind": "cb", "cb": rng.choice(["astart", "astart", "aend"]), "at": rng.choice([0, 1, 1, 2, 3]), "exc": rng.choice(["RuntimeError", "ValueError", "KeyError"])}
+            sc["fault"] = {"kind": "cb", "cb": rng.choice(["astart", "astart", "aend"]), "at": rng.choice([0, 1, 1, 2, 3]), "exc": rng.choice(gen.CB_EXCS)}
         for e in common.pick_entries(rng, rig.EXECUTE_ENTRIES if sc.get("fault") else rig.ENTRIES, 3):
             numbering(ctx, sc, e)
         ctx.inc("numbering_scenarios")
@@ -90,6 +117,8 @@ def work(ctx, tier):
             _one(ctx, sc, e, stats)
         ctx.inc("boundary_scenarios")
     common.crossing_slice(ctx, tier, common.rng_for(ctx, "crossing"), lambda sc, e: _one(ctx, sc, e, stats))
+    common.long_run_slice(ctx, tier, common.rng_for(ctx, "long"), lambda sc, e: _one(ctx, sc, e, stats))
+    common.reconfig_slice(ctx, tier, common.rng_for(ctx, "reconfig"), lambda sc, e: _one(ctx, sc, e, stats), quick_n=300)
     # two threads on one policy object with a per-class strategy table, incl. the very first failures a fresh object handles
     tconc.thread_slice(ctx, tier, common.rng_for(ctx, "threads"), ["delays"], budget=False, breaker=False, first_use=True, nprog=2)
     common.flush_stats(ctx, stats)
@@ -97,6 +126,7 @@ def work(ctx, tier):
 
 def conclude(ctx):
     floors = {
+        "strategy_calls_that_raised": (ctx.cnt["strategy_calls_that_raised"], 200),
         "strategy_calls_checked": (ctx.cnt["strategy_calls_checked"], 5000),
         "sanitised_nonfinite": (ctx.cnt["sanitised_nonfinite"], 300),
         "sanitised_negative": (ctx.cnt["sanitised_negative"], 100),
